@@ -199,6 +199,13 @@ impl Actor {
     ) -> Result<(), PutError> {
         self.core.check_concurrency_errors(&request)?;
 
+        if self.core.is_identical_to_inflight_put(&request) {
+            // Noop, the inflight query is sufficient, its result will be
+            // sent to this caller too, instead of replacing it with a new query
+            // (whose `cas` may no longer match what the first query already stored).
+            return Ok(());
+        }
+
         let mut query = PutQuery::new(request.clone(), extra_nodes);
 
         let target = request.target();
